@@ -49,3 +49,19 @@ Theorem c06_one_node_path_witness :
   column_lineage lonely true false = [].
 Proof. split; reflexivity. Qed.
 Print Assumptions c06_one_node_path_witness.
+
+(** * Projection onto table lineage, proved about the full graph model (Holder/Composition.v).
+    Under [c06_hyps] (executable: holders without DROP/RENAME, columns resolved, graphs closed, no pre-set script tags,
+    and [owners_dir]: on every column edge of a statement the source's table is read and the target's table is written
+    by that statement - exactly what fails for a scalar sub-query in a select item, K-C06-2) every column of a reported path
+    but the first is owned by a target or intermediate table of the script, and every column but the last is owned by a
+    dataset some statement reads.  False with DROP/RENAME (K-C06-1; counterexamples [cx_drop], [cx_rename]). *)
+From SV Require Import Holder.CompDefs Holder.Composition.
+
+Theorem c06_paths_project_onto_tables : forall p hs, c06_hyps hs = true ->
+  exists g, build p hs = BOk g /\
+    forall b path, In path (column_lineage g b false) ->
+      (forall n, In n (tl path) -> owner_in n (target_tables g ++ intermediate_tables g) = true) /\
+      (forall n, In n (removelast path) -> exists h, In h hs /\ owner_in n (h_read h) = true).
+Proof. exact c06_main. Qed.
+Print Assumptions c06_paths_project_onto_tables.
